@@ -16,7 +16,7 @@ Lemma skel_savePatch_ok : skel_savePatch =
 Proof. reflexivity. Qed.
 
 Lemma skel_Initialize_ok : skel_Initialize =
-  [Lock "_v0"; DeferUnlock "_v0"; IfE "_v0.initialized" [Ret] []; Call "loadRules"; IfE "_v3 != nil" [Ret] []; Call "loadGroups"; IfE "_v4 != nil" [Ret] []; IfE "len(_v0.ruleConfig.rules) == 0" [Call "SaveRule"; IfE "_v6 != nil" [Ret] []; Call "setRule"] []; Call "adjust"; Call "buildRuleList"; IfE "_v8 != nil" [Ret] []; Assign "_v0.ruleList" "= _v7"; Assign "_v0.initialized" "= true"; Ret].
+  [Lock "_v0"; DeferUnlock "_v0"; IfE "_v0.initialized" [Ret] []; Call "newRuleConfig"; Assign "_v0.ruleConfig" "= newRuleConfig()"; Call "loadRules"; IfE "_v3 != nil" [Ret] []; Call "loadGroups"; IfE "_v4 != nil" [Ret] []; IfE "len(_v0.ruleConfig.rules) == 0" [Call "SaveRule"; IfE "_v6 != nil" [Ret] []; Call "setRule"] []; Call "adjust"; Call "buildRuleList"; IfE "_v8 != nil" [Ret] []; Assign "_v0.ruleList" "= _v7"; Assign "_v0.initialized" "= true"; Ret].
 Proof. reflexivity. Qed.
 
 Lemma skel_loadRules_ok : skel_loadRules =
@@ -44,7 +44,7 @@ Lemma skel_Batch_ok : skel_Batch =
 Proof. reflexivity. Qed.
 
 Lemma skel_SetRuleGroup_ok : skel_SetRuleGroup =
-  [Lock "_v0"; DeferUnlock "_v0"; Call "beginPatch"; Call "setGroup"; Call "tryCommitPatch"; IfE "_v3 != nil" [Ret] []; Ret].
+  [Call "checkGroupID"; IfE "_v2 != nil" [Ret] []; Lock "_v0"; DeferUnlock "_v0"; Call "beginPatch"; Call "setGroup"; Call "tryCommitPatch"; IfE "_v4 != nil" [Ret] []; Ret].
 Proof. reflexivity. Qed.
 
 Lemma skel_DeleteRuleGroup_ok : skel_DeleteRuleGroup =
@@ -52,11 +52,11 @@ Lemma skel_DeleteRuleGroup_ok : skel_DeleteRuleGroup =
 Proof. reflexivity. Qed.
 
 Lemma skel_SetAllGroupBundles_ok : skel_SetAllGroupBundles =
-  [Lock "_v0"; DeferUnlock "_v0"; Call "beginPatch"; DeferE [ForE [IfE "_v6.ID == _v5" [Ret] []]; Ret]; ForE [IfE "_v2 || _v4(_v7[0])" [Call "deleteRule"] []]; ForE [IfE "_v2 || _v4(_v8)" [Call "deleteGroup"] []]; ForE [Call "setGroup"; ForE [Call "adjustRule"; IfE "_v11 != nil" [Ret] []; Call "setRule"]]; Call "tryCommitPatch"; IfE "_v12 != nil" [Ret] []; Ret].
+  [ForE [Call "checkGroupID"; IfE "_v4 != nil" [Ret] []]; Lock "_v0"; DeferUnlock "_v0"; Call "beginPatch"; DeferE [ForE [IfE "_v8.ID == _v7" [Ret] []]; Ret]; ForE [IfE "_v2 || _v6(_v9[0])" [Call "deleteRule"] []]; ForE [IfE "_v2 || _v6(_v10)" [Call "deleteGroup"] []]; ForE [Call "setGroup"; ForE [Call "adjustRule"; IfE "_v13 != nil" [Ret] []; Call "setRule"]]; Call "tryCommitPatch"; IfE "_v14 != nil" [Ret] []; Ret].
 Proof. reflexivity. Qed.
 
 Lemma skel_SetGroupBundle_ok : skel_SetGroupBundle =
-  [Lock "_v0"; DeferUnlock "_v0"; Call "beginPatch"; IfE "_v3" [ForE [IfE "_v4[0] == _v1.ID" [Call "deleteRule"] []]] []; Call "setGroup"; ForE [Call "adjustRule"; IfE "_v6 != nil" [Ret] []; Call "setRule"]; Call "tryCommitPatch"; IfE "_v7 != nil" [Ret] []; Ret].
+  [Call "checkGroupID"; IfE "_v2 != nil" [Ret] []; Lock "_v0"; DeferUnlock "_v0"; Call "beginPatch"; IfE "_v4" [ForE [IfE "_v5[0] == _v1.ID" [Call "deleteRule"] []]] []; Call "setGroup"; ForE [Call "adjustRule"; IfE "_v7 != nil" [Ret] []; Call "setRule"]; Call "tryCommitPatch"; IfE "_v8 != nil" [Ret] []; Ret].
 Proof. reflexivity. Qed.
 
 Lemma skel_DeleteGroupBundle_ok : skel_DeleteGroupBundle =
